@@ -525,7 +525,8 @@ def judge_c13(chk, s, mline):
         wantl = sorted([b"E%d-a" % i for i in range(n)] + [b"E%d-b" % i for i in range(n)])
         gotl = sorted(l for l in errs.split(b"\n") if l)
         if gotl != wantl:
-            bad.append("the shared stderr received %s, expected every stage's two lines %s" % (gotl[:8], wantl[:8]))
+            bad.append("the shared stderr misses %s and has unexpected %s (every stage writes two lines)" % (
+                [x for x in wantl if x not in gotl][:6], [x for x in gotl if x not in wantl][:6]))
     # status of the last stage, and everything reaped at return
     if term in ("join", "capture"):
         stt = kv.get("status")
